@@ -156,8 +156,7 @@ def scope_of(m, case, upto, pre, cmd):
             return 'cycle'
         if prim_steals(m, d, p):
             return 'steals'
-        if sc.do(['exec', p]) != 0:
-            break
+        sc.do(['exec', p])      # a member that fails here may still run inside the compound: keep looking
     return None
 
 
@@ -270,6 +269,52 @@ def diff_classes(m, cmd, diffs):
     return sorted(out)
 
 
+def relink_only(m, cmd, diffs):
+    """are all differences order differences in many-valued opposite ends that no member of the command
+    addresses itself?  (what the property tolerates after a Delete has been removed before)"""
+    prims = flatten(cmd)
+    has_del = any(p[0] == 'Delete' for p in prims)
+    own = {(p[1], p[2]) for p in prims if p[0] != 'Delete'}
+    touched = {p[2] for p in prims if p[0] != 'Delete'}
+    for cls, key, _ in diffs:
+        if cls != 'order' or key in own:
+            return False
+        fd = m.fd(key[1])
+        g = m.opp.get(key[1])
+        if fd['kind'] != 'ref' or not fd['many'] or g is None:
+            return False
+        if not has_del and g not in touched:
+            return False
+    return True
+
+
+def twice_recorded(m, pre, cmd):
+    """does a deleted subtree contain both the holder and the target of a link of a non-unique many-valued
+    reference without opposite?  (Delete records such a link twice: among the holder's own references and
+    among the target's inverse references)"""
+    for p in flatten(cmd):
+        if p[0] != 'Delete':
+            continue
+        sub = set(koracle.subtree(m, pre, p[1]))
+        for h in sub:
+            for fi, vals in pre['objs'][h]['feats'].items():
+                fd = m.fd(fi)
+                if fd['kind'] == 'ref' and fd['many'] and not fd['unique'] and m.opp.get(fi) is None \
+                        and any(t in sub for t in koracle.objs_of(vals)):
+                    return True
+    return False
+
+
+def members_interfere(m, cmd):
+    """do two members of the compound address the same feature slot, directly or through the opposite end?"""
+    cellz = [(p[1], p[2]) for p in flatten(cmd) if p[0] != 'Delete']
+    for i, (x, f) in enumerate(cellz):
+        for (y, g) in cellz[i + 1:]:
+            if (x, f) == (y, g) or (f < len(m.ff) and m.opp.get(f) == g):
+                return True
+    return False
+
+
 def signature(m, clause, cmd, pre, diffs, extra=()):
     if clause == 'truncate':
         return {'property': PID, 'clause': clause, 'kind': 'CommandStack', 'shape': {},
@@ -279,11 +324,23 @@ def signature(m, clause, cmd, pre, diffs, extra=()):
     shape = {}
     if cmd and k not in ('Delete', 'Compound') and cmd[2] < len(m.ff):
         shape = krun.shape(m, ['cmd', cmd[1], cmd[2]])
-    if k in ('Set', 'Remove', 'Move') and classes == ['order@opposite-end'] and not extra:
-        # one defect whatever the command and the index: the link is re-established through append() on the
+    if cmd and diffs and not [x for x in extra if x not in ('partial-effect',)] and relink_only(m, cmd, diffs):
+        # one defect whatever the command and the index: a link is re-established through append() on the
         # many-valued opposite end, so the owner comes back at the end of its partner's collection
-        return {'property': PID, 'clause': clause, 'kind': 'relink', 'shape': {'opposite': 'many'},
-                'qualifiers': ['partner-collection-order']}
+        return {'property': PID, 'clause': 'undo' if clause == 'can_execute-raised' else clause, 'kind': 'relink',
+                'shape': {'opposite': 'many'}, 'qualifiers': ['partner-collection-order']}
+    if 'refused-by-can_undo' in extra:
+        return {'property': PID, 'clause': clause, 'kind': k, 'shape': shape, 'qualifiers': ['refused-by-can_undo']}
+    if k == 'Compound' and members_interfere(m, cmd):
+        # one defect: can_execute of every member is asked before the first member runs (and can_undo after the
+        # last one), so members that address the same collection decide on a state they will not meet
+        # (a failing member makes Compound.execute undo the members already run: same clause)
+        return {'property': PID, 'clause': 'undo' if clause == 'can_execute-raised' else clause, 'kind': k,
+                'shape': shape, 'qualifiers': ['members-interfere']}
+    if any(p[0] == 'Delete' for p in flatten(cmd)) and twice_recorded(m, pre, cmd):
+        quals_extra = ['link-inside-deleted-subtree-through-nonunique-reference']
+        return {'property': PID, 'clause': 'undo' if clause == 'can_execute-raised' else clause, 'kind': 'Delete',
+                'shape': {}, 'qualifiers': quals_extra}
     quals = sorted(set((cmd_qualifiers(m, pre, cmd) if cmd else []) + list(extra) + ['diff:' + c for c in classes]))
     return {'property': PID, 'clause': clause, 'kind': k, 'shape': shape, 'qualifiers': quals}
 
@@ -311,8 +368,14 @@ def evaluate(case, record=True):
         if scope == 'cycle':
             v.stopped = ('containment-cycle', i)
             break
-        code = w.do(sop)
-        post = w.dump()
+        idx_before = w.stack.stack_index
+        try:
+            code = w.do(sop)
+            post = w.dump()
+        except RecursionError:
+            v.stopped = ('containment-cycle', i)
+            break
+        idx_after = w.stack.stack_index
         if record:
             v.steps.append({'op': sop, 'outcome': (code, None), 'dump': post, 'log': w.w.take_log(),
                             'stack': (w.stack.stack_index, len(w.stack.stack))})
@@ -349,12 +412,15 @@ def evaluate(case, record=True):
                     break
                 exc = has_delete(e['cmd'])
                 diffs, tolerated = state_diff(m, e['pre'], post, delete_exception=exc)
-                if code != 0:
+                if idx_after == idx_before and not state_diff(m, pre, post)[0]:
+                    # the call had no effect at all: can_undo answered False (undo() then returns silently) or raised
+                    fail = ('undo', e['cmd'], e['pre'], [], ('refused-by-can_undo',),
+                            f'undo of {e["cmd"]} did nothing (code {code}): the command stays on top of the stack')
+                elif code != 0:
                     fail = ('undo', e['cmd'], e['pre'], diffs, ('raised',),
                             f'undo of {e["cmd"]} raised (code {code})')
                 elif diffs:
-                    extra = ('not-undone',) if not state_diff(m, pre, post)[0] else ()
-                    fail = ('undo', e['cmd'], e['pre'], diffs, extra,
+                    fail = ('undo', e['cmd'], e['pre'], diffs, (),
                             f'undo of {e["cmd"]} does not restore the state: {diffs[0][2]}')
                 else:
                     done.pop()
@@ -517,13 +583,15 @@ def gen_prim(m, case, d, rng, focus=None):
             return ['Set', x, fi, gen_value(m, case, fd, rng, cur)]
         if not fd['many']:
             continue                                  # Add/Remove/Move on a single-valued feature: not modelled
+        if kind in ('Remove', 'Move') and n == 0 and applicable and rng.random() < 0.9:
+            continue                                  # mostly on collections that hold something
         if kind == 'Add':
             i = None if rng.random() < 0.35 else rng.randrange(-n - 2, n + 3)
             return ['Add', x, fi, gen_value(m, case, fd, rng, cur, want_present=rng.random() < 0.08), i]
         if kind == 'Remove':
             if rng.random() < 0.5:
-                return ['Remove', x, fi, None, rng.randrange(-n - 1, n + 1) if rng.random() < 0.85 or not n
-                        else rng.randrange(n)]
+                return ['Remove', x, fi, None, rng.randrange(-n, n) if n and rng.random() < 0.85
+                        else rng.randrange(-n - 2, n + 2)]
             v = gen_value(m, case, fd, rng, cur, want_present=rng.random() < 0.85)
             if v is None:
                 continue
@@ -531,7 +599,8 @@ def gen_prim(m, case, d, rng, focus=None):
         if kind == 'Move':
             to = rng.randrange(-n - 1, n + 2)
             if rng.random() < 0.55:
-                return ['Move', x, fi, None, rng.randrange(-n - 1, n + 1), to]
+                return ['Move', x, fi, None, rng.randrange(-n, n) if n and rng.random() < 0.85
+                        else rng.randrange(-n - 2, n + 2), to]
             v = gen_value(m, case, fd, rng, cur, want_present=rng.random() < 0.9)
             if v is None:
                 continue
@@ -579,6 +648,11 @@ def gen_case(rng, thorough):
             for sop in block:
                 case['word'].append(list(sop))
                 w.do(sop)
+            try:
+                w.dump()
+            except RecursionError:
+                del case['word'][-len(block):]
+                break
             continue
         if r < 0.56 or (ndone == 0 and nundone == 0 and r < 0.9):
             for _ in range(30):
@@ -597,7 +671,12 @@ def gen_case(rng, thorough):
         else:
             sop = ['redo']
         case['word'].append(sop)
-        code = w.do(sop)
+        try:
+            code = w.do(sop)
+            w.dump()
+        except RecursionError:      # a containment cycle slipped through: the word ends before it
+            case['word'].pop()
+            break
         if code == 0:
             if sop[0] == 'exec':
                 ndone, nundone = ndone + 1, 0
